@@ -35,6 +35,15 @@
   * "exactly once": `walk_reports_exactly_once` (the list reported has no repetition).  The
     theorems fix the order of the reports (table order, leftmost enumeration outermost); the
     statement does not, and the check compares the reports as a multiset.
+  * "every reported address, sent as a message, is dispatched to the very port it was reported
+    with": `walked_address_dispatched` / `walked_address_reaches_port` — the model of
+    `Ports::dispatch` without location buffer that the correspondence driver runs (`dispatchSim`,
+    Walk/Dispatch.lean: `rtosc_match` of C05 on every row, type part included; the callback of a
+    sub-tree port skips the components of its name and dispatches to the sub-table) invokes
+    exactly the reported port, iff the type string of the message is admitted by every port on the
+    way.  The same against C04's model of `Ports::dispatch` (with and without location buffer,
+    any lookup strategy) is in the module Props/C09Ports.lean.  `walked_address_dispatches` (the
+    statement about `rtosc_match_path` level by level) is kept.
   * The runtime clause is `walk_prunes` (NULL pointers and "enabled by" toggles at every depth;
     its hypotheses `PathPrefix` / `GuardsOK` say where `port_is_enabled` is defined at all) and
     `walk_prunes_partial` (NULL pointers only, without those hypotheses).  The model is that of
@@ -43,6 +52,8 @@
     (`SCRATCH`).
 -/
 import RtoscModel.Proofs.WalkGuard
+import RtoscModel.Proofs.WalkSim
+import RtoscModel.Proofs.WalkDigits
 namespace Rtosc.Walk
 open Rtosc Rtosc.Path Rtosc.Match
 
@@ -172,6 +183,184 @@ theorem walked_address_dispatches_only (ts : List STree) (hwf : TreeWF ts) (hs :
 /-- a decidable sufficient condition for two rows to be `Apart`: neither text in front of
     the first '#' is a prefix of the other -/
 theorem apart_of_headsApart {w v : WName} (h : headsApart w v = true) : Apart w v := apart_of_heads h
+
+/-! ### … by the dispatch model (`dispatchSim`), type part included -/
+
+/-- the type rule `tagsAdmitted` spelled out (C05 `types_exact`): no type part, or the type
+    string is one of the alternatives, or it extends the last alternative, which is not empty -/
+theorem tagsAdmitted_spec (ty : Option (List Bytes)) (tags : Bytes) :
+    tagsAdmitted ty tags = true ↔
+      ∀ ts, ty = some ts → tags ∈ ts ∨ ∃ l, ts.getLast? = some l ∧ l ≠ [] ∧ l <+: tags := by
+  cases ty with
+  | none => simp [tagsAdmitted]
+  | some ts =>
+    simp only [Option.some.injEq, forall_eq', tagsAdmitted, Bool.or_eq_true, List.contains_iff_mem]
+    constructor
+    · rintro (h | h)
+      · exact Or.inl h
+      · cases hl : ts.getLast? with
+        | none => simp [hl] at h
+        | some l =>
+          simp only [hl, Bool.and_eq_true, Bool.not_eq_eq_eq_not, Bool.not_true, List.isEmpty_eq_false_iff] at h
+          exact Or.inr ⟨l, rfl, h.1, List.isPrefixOf_iff_prefix.mp h.2⟩
+    · rintro (h | ⟨l, hl, h1, h2⟩)
+      · exact Or.inl h
+      · right
+        simp only [hl, Bool.and_eq_true, Bool.not_eq_eq_eq_not, Bool.not_true, List.isEmpty_eq_false_iff]
+        exact ⟨h1, List.isPrefixOf_iff_prefix.mpr h2⟩
+
+/-- **walked_address_dispatched** (the dispatch clause against the dispatch model): for every
+    well-formed tree with pairwise apart rows (`SiblingsApart`) and no leaf name that is empty in
+    front of a type part (`LeavesNamed`), every pair `(port, address)` of `enumerate` and every
+    type string: the message `"/" ++ rel` (`rel`: the address behind the table's prefix) with these
+    tags and all-zero arguments, as the harness builds it, makes `dispatchSim` return (no read
+    leaves the message) with exactly the reported port called — once, and no other leaf callback —
+    if the type string is admitted by every port on the index path (`admittedAlong`: the reported
+    leaf *and* the sub-tree ports on the way, whose `rtosc_match` sees the same message), and with
+    no callback at all otherwise.  (`IdxBounded`: every digit run of the address is below 2^31; it
+    does not follow from `TreeWF` and cannot be dropped: `dispatch_needs_idxBounded`; it follows
+    from the decidable condition `DigitsShort` on the names: `walked_address_dispatched_short`.) -/
+theorem walked_address_dispatched (ts : List STree) (hwf : TreeWF ts) (hn : LeavesNamed ts) (hs : SiblingsApart ts)
+    (pre : Bytes) (ix : List Nat) (addr : Bytes) (h : (ix, addr) ∈ enumerate ts pre) (tags : Bytes)
+    (ht : NulFree tags) :
+    ∃ rel, addr = pre ++ rel ∧ NulFree rel ∧
+      (IdxBounded rel →
+        dispatchSim (toPorts ts) (47 :: rel) tags = some (if admittedAlong tags ix ts then [ix] else [])) := by
+  obtain ⟨rel, h1, h2, h3⟩ := dispatchSim_reported true ts hwf hn (fun _ => hs) pre ix addr h tags ht
+  refine ⟨rel, h1, h2, fun hb => ?_⟩
+  obtain ⟨l, hl, _, hl2⟩ := h3 hb
+  rw [hl, hl2 rfl]
+
+/-- **walked_address_dispatched_among**: without `SiblingsApart` the reported port is still among
+    the callbacks `dispatchSim` makes (and `dispatchSim` still returns). -/
+theorem walked_address_dispatched_among (ts : List STree) (hwf : TreeWF ts) (hn : LeavesNamed ts)
+    (pre : Bytes) (ix : List Nat) (addr : Bytes) (h : (ix, addr) ∈ enumerate ts pre) (tags : Bytes)
+    (ht : NulFree tags) (hadm : admittedAlong tags ix ts = true) :
+    ∃ rel, addr = pre ++ rel ∧ NulFree rel ∧
+      (IdxBounded rel → ∃ l, dispatchSim (toPorts ts) (47 :: rel) tags = some l ∧ ix ∈ l) := by
+  obtain ⟨rel, h1, h2, h3⟩ := dispatchSim_reported false ts hwf hn (by intro h; cases h) pre ix addr h tags ht
+  refine ⟨rel, h1, h2, fun hb => ?_⟩
+  obtain ⟨l, hl, hl1, _⟩ := h3 hb
+  exact ⟨l, hl, hl1 hadm⟩
+
+/-- **walked_address_reaches_port**: in a tree whose sub-tree ports declare no argument types
+    (`SubsUntyped`: what `rRecur*` generate) the index path of a reported pair ends at a leaf `w`,
+    and a message to the reported address is delivered to exactly that port if its type string is
+    admitted by `w`'s own type part (none declared: any type string), to no port otherwise. -/
+theorem walked_address_reaches_port (ts : List STree) (hwf : TreeWF ts) (hn : LeavesNamed ts) (hs : SiblingsApart ts)
+    (hu : SubsUntyped ts) (pre : Bytes) (ix : List Nat) (addr : Bytes) (h : (ix, addr) ∈ enumerate ts pre) :
+    ∃ rel w, addr = pre ++ rel ∧ NulFree rel ∧ leafAt ix ts = some w ∧
+      (IdxBounded rel → ∀ tags, NulFree tags →
+        dispatchSim (toPorts ts) (47 :: rel) tags = some (if tagsAdmitted w.types tags then [ix] else [])) := by
+  obtain ⟨w, hw, _⟩ := dispatchSim_reported_leaf ts hu pre ix addr h []
+  obtain ⟨rel, h1, h2, _⟩ := walked_address_dispatched ts hwf hn hs pre ix addr h [] (fun _ h => by simp at h)
+  refine ⟨rel, w, h1, h2, hw, ?_⟩
+  intro hb tags ht
+  obtain ⟨rel', h1', _, h3'⟩ := walked_address_dispatched ts hwf hn hs pre ix addr h tags ht
+  have : rel' = rel := List.append_cancel_left (h1'.symm.trans h1)
+  subst this
+  obtain ⟨w', hw', hadm⟩ := dispatchSim_reported_leaf ts hu pre ix addr h tags
+  rw [hw] at hw'
+  cases hw'
+  rw [h3' hb, hadm]
+
+/-- **reported_idxBounded** (`IdxBounded` from a condition on the names): if in every name of the
+    tree a digit run of literal text, together with the digits of a `#N` that follows it, is at
+    most nine characters long (`DigitsShort`, decidable), every digit run of every reported address
+    is below 2^31. -/
+theorem reported_idxBounded (ts : List STree) (hwf : TreeWF ts) (hd : DigitsShort ts) (pre : Bytes)
+    (ix : List Nat) (addr : Bytes) (h : (ix, addr) ∈ enumerate ts pre) :
+    ∃ rel, addr = pre ++ rel ∧ IdxBounded rel :=
+  reported_idxBounded_aux ts hwf hd pre ix addr h
+
+/-- **walked_address_dispatched_short**: `walked_address_dispatched` with the hypothesis on the
+    reported address replaced by `DigitsShort` on the tree. -/
+theorem walked_address_dispatched_short (ts : List STree) (hwf : TreeWF ts) (hn : LeavesNamed ts)
+    (hs : SiblingsApart ts) (hd : DigitsShort ts)
+    (pre : Bytes) (ix : List Nat) (addr : Bytes) (h : (ix, addr) ∈ enumerate ts pre) (tags : Bytes)
+    (ht : NulFree tags) :
+    ∃ rel, addr = pre ++ rel ∧
+      dispatchSim (toPorts ts) (47 :: rel) tags = some (if admittedAlong tags ix ts then [ix] else []) := by
+  obtain ⟨rel, h1, _, h3⟩ := walked_address_dispatched ts hwf hn hs pre ix addr h tags ht
+  obtain ⟨rel', h1', hb⟩ := reported_idxBounded ts hwf hd pre ix addr h
+  have : rel' = rel := List.append_cancel_left (h1'.symm.trans h1)
+  subst this
+  exact ⟨rel', h1, h3 hb⟩
+
+/-- a decidable sufficient condition for `SiblingsApart`: `headsApart` for every two rows of every
+    table -/
+theorem siblingsApart_of_headsApart {ts : List STree} (h : HeadsApart ts) : SiblingsApart ts :=
+  headsApart_siblingsApart h
+
+/-- `a/` → { `:i` } -/
+def emptyLeafTree : List STree := [.sub ⟨[97], [], true, none⟩ none [.leaf ⟨[], [], false, some [[105]]⟩ none]]
+
+/-- **dispatch_empty_leaf_counterexample** (why `LeavesNamed`): a leaf whose whole name is a type
+    part (`:i`) below `a/` is reported under "/a/"; the message "/a/" ",i" is admitted along the
+    path, but when `rtosc_match` reaches the leaf nothing is left of the address and
+    `rtosc_argument_string` — which skips the first byte unseen — takes ",i" for the address and
+    runs through the arguments: the matcher leaves the message (`none`). -/
+theorem dispatch_empty_leaf_counterexample :
+    TreeWF emptyLeafTree ∧ HeadsApart emptyLeafTree ∧ ¬ LeavesNamed emptyLeafTree ∧
+    ([0, 0], [47, 97, 47]) ∈ enumerate emptyLeafTree [47] ∧ IdxBounded [97, 47] ∧
+    admittedAlong [105] [0, 0] emptyLeafTree = true ∧
+    dispatchSim (toPorts emptyLeafTree) [47, 97, 47] [105] = none := by
+  refine ⟨by decide, by decide, by decide, by decide, idxBounded_of_check (by decide), by decide, by decide⟩
+
+/-- `a#3`, `a4294967297` -/
+def wrapTree : List STree :=
+  [.leaf ⟨[97], [([51], [])], false, none⟩ none, .leaf ⟨[97, 52, 50, 57, 52, 57, 54, 55, 50, 57, 55], [], false, none⟩ none]
+
+theorem wrapTree_apart : SiblingsApart wrapTree := by
+  have hap : Apart ⟨[97], [([51], [])], false, none⟩ ⟨[97, 52, 50, 57, 52, 57, 54, 55, 50, 57, 55], [], false, none⟩ := by
+    rintro a ⟨⟨r1, h1, e1⟩, ⟨r2, h2, e2⟩⟩
+    simp only [WName.toPat, litSeg, partSegs, List.isEmpty_cons, List.isEmpty_nil, Bool.false_eq_true, ↓reduceIte,
+      List.append_nil, List.singleton_append] at h1 h2 e1 e2
+    subst e1 e2
+    cases h2 with
+    | lit s h2' =>
+      cases h2'
+      generalize hA : ([97, 52, 50, 57, 52, 57, 54, 55, 50, 57, 55] ++ [] : Bytes) = A at h1
+      cases h1 with
+      | lit s h1' =>
+        cases h1' with
+        | enum ds idx _ _ _ hlt h1'' =>
+          cases h1''
+          simp only [List.append_nil, List.cons_append, List.nil_append, List.cons.injEq, true_and] at hA
+          subst hA
+          revert hlt
+          decide
+  unfold SiblingsApart
+  refine ⟨?_, by simp [wrapTree, kidsApart]⟩
+  intro i j t u hij hi hj
+  have hi2 : i < 2 := by
+    have := (List.getElem?_eq_some_iff.mp hi).1; simpa [wrapTree] using this
+  have hj2 : j < 2 := by
+    have := (List.getElem?_eq_some_iff.mp hj).1; simpa [wrapTree] using this
+  have hcases : (i = 0 ∧ j = 1) ∨ (i = 1 ∧ j = 0) := by omega
+  rcases hcases with ⟨rfl, rfl⟩ | ⟨rfl, rfl⟩
+  · simp [wrapTree] at hi hj; subst hi hj; exact hap
+  · simp [wrapTree] at hi hj; subst hi hj
+    intro a ⟨h1, h2⟩; exact hap a ⟨h2, h1⟩
+
+/-- **dispatch_needs_idxBounded** (why `IdxBounded`, and why it does not follow from `TreeWF`):
+    literal text of a name may hold a digit run of any length.  The rows `a#3` and `a4294967297`
+    answer to no common address (`SiblingsApart`), the walk reports "/a4294967297" for the second —
+    and `rtosc_match_number` reads 4294967297 = 2^32 + 1 as the index 1 (`atoi`, then truncation to
+    32 bits), so the first row's callback is invoked too. -/
+theorem dispatch_needs_idxBounded :
+    TreeWF wrapTree ∧ LeavesNamed wrapTree ∧ SiblingsApart wrapTree ∧
+    ([1], [47, 97, 52, 50, 57, 52, 57, 54, 55, 50, 57, 55]) ∈ enumerate wrapTree [47] ∧
+    ¬ IdxBounded [97, 52, 50, 57, 52, 57, 54, 55, 50, 57, 55] ∧
+    dispatchSim (toPorts wrapTree) [47, 97, 52, 50, 57, 52, 57, 54, 55, 50, 57, 55] [] = some [[0], [1]] := by
+  refine ⟨by decide, by decide, wrapTree_apart, by decide, ?_, by decide⟩
+  intro h
+  have := h [97] [52, 50, 57, 52, 57, 54, 55, 50, 57, 55] [] (by simp) (by decide)
+  revert this
+  decide
+
+/-- `wrapTree` is what `DigitsShort` excludes -/
+example : ¬ DigitsShort wrapTree := by decide
 
 /-! ## Clause 4: pruning by the runtime object -/
 
@@ -336,6 +525,21 @@ example : (walkPorts {} (toPorts exTree) none ([47] ++ 0 :: List.replicate 12 0x
 /-- the rows of `exTree` are pairwise apart by the decidable criterion -/
 example : headsApart ⟨[97], [([51], [47, 98]), ([50], [47, 99])], true, none⟩ ⟨[122], [([50], [])], false, none⟩ = true := by
   decide
+
+/-- dispatch of "/a2/b1/c/x1y" (port 0.0, `x#2y:i` below `a#3/b#2/c/`): with the tag `i` exactly that
+    port, without it no port -/
+example : LeavesNamed exTree := by decide
+example : HeadsApart exTree := by decide
+example : DigitsShort exTree := by decide
+example : admittedAlong [105] [0, 0] exTree = true := by decide
+example : dispatchSim (toPorts exTree) [47, 97, 50, 47, 98, 49, 47, 99, 47, 120, 49, 121] [105] = some [[0, 0]] := by
+  decide
+example : admittedAlong [] [0, 0] exTree = false := by decide
+example : dispatchSim (toPorts exTree) [47, 97, 50, 47, 98, 49, 47, 99, 47, 120, 49, 121] [] = some [] := by decide
+/-- `k#2b/:i` is a typed sub-tree port: "/k1b/w" reaches `w` only with the tag `i` -/
+example : typesAlong [2, 0] exTree = [some [[105]], none] := by decide
+example : dispatchSim (toPorts exTree) [47, 107, 49, 98, 47, 119] [105] = some [[2, 0]] := by decide
+example : dispatchSim (toPorts exTree) [47, 107, 49, 98, 47, 119] [] = some [] := by decide
 
 /-- a runtime for `exTree` in which `a1/b0/c/` is NULL and `k0b/` is NULL -/
 def exObj : Obj :=
